@@ -324,6 +324,20 @@ DEFAULT_GROUPS = {
     "C19": [("discovery", "discover")],
 }
 _AST_CACHE: dict[str, ast.Module] = {}
+_ENV_CACHE: dict[str, dict] = {}
+
+
+def _default_text(d: ast.expr, env: dict) -> str:
+    """A default written as a literal or as the name of a module-level constant holding a literal: the literal's repr."""
+    if isinstance(d, ast.Name) and d.id in env and isinstance(env[d.id], (str, int, bool, tuple, type(None))):
+        return repr(env[d.id])
+    if isinstance(d, ast.Constant):
+        return repr(d.value)
+    if isinstance(d, ast.Tuple) and all(isinstance(e, ast.Constant) for e in d.elts):
+        return repr(tuple(e.value for e in d.elts))
+    if isinstance(d, ast.Name):
+        return d.id              # a class or an imported name (e.g. reference_cls=Reference)
+    raise Unsupported(f"default {ast.dump(d)[:60]}")
 
 
 def _find_function(tree: ast.Module, qual: str) -> ast.FunctionDef:
@@ -348,6 +362,11 @@ def signature_defaults(src: Path, group: str) -> list[tuple[str, str]]:
         path = src / "curies" / f"{mod}.py"
         if str(path) not in _AST_CACHE:
             _AST_CACHE[str(path)] = ast.parse(path.read_text())
+            try:
+                _ENV_CACHE[str(path)] = const_env(_AST_CACHE[str(path)])
+            except Unsupported:
+                _ENV_CACHE[str(path)] = {}
+        env = _ENV_CACHE[str(path)]
         fn = _find_function(_AST_CACHE[str(path)], qual)
         a = fn.args
         if a.vararg is not None and qual.split(".")[-1] not in ("__init__",):
@@ -360,10 +379,8 @@ def signature_defaults(src: Path, group: str) -> list[tuple[str, str]]:
                 continue
             if d is None:
                 continue            # a required parameter
-            elif isinstance(d, (ast.Constant, ast.Name, ast.Tuple)):
-                rows.append((f"{qual}.{arg}", ast.unparse(d)))
             else:
-                raise Unsupported(f"{qual}.{arg}: default {ast.dump(d)[:60]}")
+                rows.append((f"{qual}.{arg}", _default_text(d, env)))
     return rows
 
 
